@@ -62,8 +62,8 @@ def decide_zero(x, ex, ladder=LADDER_QUICK, extra_hyps=(), use_pc_first=False, w
 
     Returns Verdict: 'unsat' = identity holds; 'sat' = counterexample env; 'unknown'."""
     x = tosym(x)
-    if isnum(x.a):
-        return Verdict('unsat' if val(x.a) == 0 else 'sat', 'constant', 0.0, {} if val(x.a) != 0 else None,
+    if x.c is not None:
+        return Verdict('unsat' if x.c == 0 else 'sat', 'constant', 0.0, {} if x.c != 0 else None,
                        stage='constant')
     hb = (ex.hyps_b() if ex else []) + list(extra_hyps)
     ha = (ex.hyps_a() if ex else []) + list(extra_hyps)
